@@ -149,10 +149,120 @@ theorem mergeGroups_error (pg : PG P) (sup p : P) (e : Err) (h : mergeGroups pg 
 theorem step_lookup_state (pg : PG P) (op : Op P) (h : op.isMutator = false) : (step pg op).1 = pg := by
   cases op <;> simp [Op.isMutator] at h <;> rfl
 
+/-- a predicate kept by every successful `merge_groups` and established by `remove_empty_groups` is
+    kept by the composite callers of graphs.py -/
+theorem mergeInto_induction (Q : PG P → Prop)
+    (hm : ∀ pg pg' sup p, Q pg → mergeGroups pg sup p = .ok pg' → Q pg') (lead : P) :
+    ∀ (ps : List P) (pg : PG P), Q pg → Q (mergeInto pg lead ps).1 := by
+  intro ps
+  induction ps with
+  | nil => intro pg h; exact h
+  | cons p ps ih =>
+    intro pg h
+    unfold mergeInto
+    cases hmg : mergeGroups pg lead p with
+    | ok pg' => exact ih pg' (hm pg pg' lead p h hmg)
+    | error e => exact h
+
+theorem mergeComponents_induction (Q : PG P → Prop)
+    (hm : ∀ pg pg' sup p, Q pg → mergeGroups pg sup p = .ok pg' → Q pg')
+    (hr : ∀ pg, Q (removeEmpty pg)) :
+    ∀ (cs : List (List P)) (pg : PG P), Q pg → Q (mergeComponents pg cs).1 := by
+  intro cs
+  induction cs with
+  | nil => intro pg _; exact hr pg
+  | cons c cs ih =>
+    intro pg h
+    cases c with
+    | nil => exact h
+    | cons lead ps =>
+      unfold mergeComponents
+      have h1 := mergeInto_induction Q hm lead ps pg h
+      cases hmi : mergeInto pg lead ps with
+      | mk pg' oe =>
+        rw [hmi] at h1
+        cases oe with
+        | none => exact ih pg' h1
+        | some e => exact h1
+
+/-- a composite call that did not raise ended with `remove_empty_groups` -/
+theorem mergeComponents_ok (cs : List (List P)) :
+    ∀ (pg : PG P), (mergeComponents pg cs).2 = none →
+      (mergeComponents pg cs).1.valid = true ∧
+      (mergeComponents pg cs).1.index = buildIndex (mergeComponents pg cs).1.groups := by
+  induction cs with
+  | nil => intro pg _; simp [mergeComponents, removeEmpty]
+  | cons c cs ih =>
+    intro pg h
+    cases c with
+    | nil => simp [mergeComponents] at h
+    | cons lead ps =>
+      unfold mergeComponents at h ⊢
+      cases hmi : mergeInto pg lead ps with
+      | mk pg' oe =>
+        rw [hmi] at h
+        cases oe with
+        | none => exact ih pg' h
+        | some e => simp at h
+
+/-- whatever happens, the inner loop either changed nothing or left the flag down -/
+theorem mergeInto_same_or_down (lead : P) :
+    ∀ (ps : List P) (pg : PG P), (mergeInto pg lead ps).1 = pg ∨ (mergeInto pg lead ps).1.valid = false := by
+  intro ps
+  induction ps with
+  | nil => intro pg; exact Or.inl rfl
+  | cons p ps ih =>
+    intro pg
+    unfold mergeInto
+    cases hmg : mergeGroups pg lead p with
+    | ok pg' =>
+      rcases ih pg' with h | h
+      · right; simp only []; rw [h]; exact (mergeGroups_ok pg pg' lead p hmg).1
+      · exact Or.inr h
+    | error e => exact Or.inl rfl
+
+/-- a composite call that raised either changed nothing or left the flag down -/
+theorem mergeComponents_error (cs : List (List P)) :
+    ∀ (pg : PG P) (e : Err), (mergeComponents pg cs).2 = some e →
+      (mergeComponents pg cs).1 = pg ∨ (mergeComponents pg cs).1.valid = false := by
+  induction cs with
+  | nil => intro pg e h; simp [mergeComponents] at h
+  | cons c cs ih =>
+    intro pg e h
+    cases c with
+    | nil => exact Or.inl rfl
+    | cons lead ps =>
+      unfold mergeComponents at h ⊢
+      have h1 := mergeInto_same_or_down lead ps pg
+      cases hmi : mergeInto pg lead ps with
+      | mk pg' oe =>
+        rw [hmi] at h h1
+        cases oe with
+        | some e' => exact h1
+        | none =>
+          rcases ih pg' e h with h2 | h2
+          · rcases h1 with h1 | h1
+            · left; simp only [] at h2 h1 ⊢; rw [h2, h1]
+            · right; simp only [] at h2 h1 ⊢; rw [h2]; exact h1
+          · exact Or.inr h2
+
+theorem step_mergeComponents_fst (pg : PG P) (cs : List (List P)) :
+    (step pg (.mergeComponents cs)).1 = (mergeComponents pg cs).1 := by
+  simp only [step]
+  cases h : mergeComponents pg cs with
+  | mk pg' oe => cases oe <;> rfl
+
 theorem inv_step' (pg : PG P) (op : Op P) (h : Inv pg) : Inv (step pg op).1 := by
   cases op with
   | append g => intro hv; simp [step] at hv
   | extend gs => intro hv; simp [step] at hv
+  | updateRescued obs => intro hv; simp [step] at hv
+  | mergeComponents cs =>
+    rw [step_mergeComponents_fst]
+    refine mergeComponents_induction Inv ?_ ?_ cs pg h
+    · intro pg pg' sup p _ hm hv
+      simp [(mergeGroups_ok pg pg' sup p hm).1] at hv
+    · intro pg _; simp [removeEmpty]
   | createIndex => intro _; simp [step]
   | merge sup p =>
     intro hv
@@ -187,6 +297,17 @@ theorem inRange_step (pg : PG P) (op : Op P) (h : InRange pg) : InRange (step pg
     intro p i hi
     have := h p i hi
     simp only [step, List.length_append]; omega
+  | updateRescued obs =>
+    intro p i hi
+    have := h p i hi
+    simp only [step, List.length_append]; omega
+  | mergeComponents cs =>
+    rw [step_mergeComponents_fst]
+    refine mergeComponents_induction InRange ?_ ?_ cs pg h
+    · intro pg pg' sup p h0 hm q i hq
+      obtain ⟨_, hi, hl⟩ := mergeGroups_ok pg pg' sup p hm
+      rw [hi] at hq; rw [hl]; exact h0 q i hq
+    · intro pg; exact inRange_buildIndex _ _
   | createIndex => exact inRange_buildIndex _ _
   | merge sup p =>
     simp only [step]
